@@ -202,6 +202,7 @@ def run(ctx):
     # same-named imported symbols (values used as bounds, types) in different modules vs the same types written inline
     from .. import samename
     samename.run(ctx, 'C19', ctx.rng, ctx.n(5, 60))
+    samename.run_named(ctx, 'C19', ctx.rng, ctx.n(4, 40))
     # one referenced type + one member name used several ways (the compiled-type cache): order of assignments / inline copy
     from .. import aliasfam
     aliasfam.run_c19(ctx, ctx.rng, ctx.n(60, 800), impl, CODECS)
